@@ -179,9 +179,12 @@ def call (script : List PgFunc) : Nat → String → Option JVal → Option Tri
     | some fd =>
       match arg with
       | none =>
-        -- NULL argument: every test on it is NULL; struct/union/array/map fall through to NULL
+        -- NULL argument: every test on it is NULL; array/map fall through to NULL (zero rows)
         (match fd with
          | .union _ _ => some .ff        -- no WHEN matches NULL: ELSE RETURN FALSE
+         | .struct _ fields =>
+           -- no key test (zero rows), every field validator is called on NULL
+           (fields.mapM fun (p : String × String) => call script f p.2 none).map fun (rs : List Tri) => rs.foldl Tri.and .nul
          | _ => some .nul)
       | some j =>
         match fd with
